@@ -70,3 +70,8 @@ Proof.
     + apply Forall_forall. intros y Hy. apply (proj1 (Forall_forall _ _) HF). eapply in_firstn; exact Hy.
     + constructor; [exact Hx|]. apply Forall_forall. intros y Hy. apply (proj1 (Forall_forall _ _) HF). eapply in_skipn; exact Hy.
 Qed.
+
+(* the code after fix C08-D13 *)
+Corollary cat_offsets sizes n_out :
+  Forall (fun s => 0 <= s) sizes -> sumZ sizes <= n_out -> cat_out_slices n_out 0 sizes = cat_spec_slices sizes.
+Proof. intros HF Hs. unfold cat_out_slices, fixed_D13, cat_spec_slices. apply cat_offsets_fixed; [exact HF|lia|lia]. Qed.
